@@ -138,6 +138,13 @@ CallStop(who) ==
   /\ calls' = [calls EXCEPT ![who] = @ + 1]
   /\ UNCHANGED <<cfg, chain, nit, nfev, njev, nit0, n0, f0r, x, fx, fAt, gAt, pg, memo, mem, matsOf,
                  ls, task, success, lastCb, snap, npts, gen, uphill, fault, out>>
+\* the same calls made later than the code does today (any place before iterating): the order is
+\* not part of any property, only "exactly once" (C04) is
+LateCallStop(who) ==
+  /\ pc \in {"Early", "G0", "Scale", "Upd0", "Mem0", "Guard"}
+  /\ calls' = [calls EXCEPT ![who] = @ + 1]
+  /\ UNCHANGED <<cfg, chain, pc, nit, nfev, njev, nit0, n0, f0r, x, fx, fAt, gAt, pg, memo, mem, matsOf,
+                 ls, task, success, lastCb, snap, npts, gen, uphill, fault, out>>
 SkipStop ==
   /\ \/ pc = "StopT" /\ pc' = "StopG"
      \/ pc = "StopG" /\ pc' = "Early"
@@ -442,7 +449,7 @@ C04_TruthCALLBACK == IsRes /\ out.msg = "CALLBACK" => out.mlastCb
 C04_Success       == IsRes => (out.success = (out.msg # "ABNORMAL"))
 C04_BudgetNit     == nit <= Max(cfg.maxiter, nit0)
 C04_BudgetNfev    == ~cfg.fd /\ pc # "Idle" => nfev <= Max(cfg.maxfun, n0) + 1
-C04_StopOnce      == IsRes /\ out.kind = "result" =>
+C04_StopOnce      == IsRes =>
                        /\ (cfg.tk = "call" => out.mcalls.ftarget = 1)
                        /\ (cfg.gk = "call" => out.mcalls.gtol = 1)
 C04_StopAtMostOnce == calls.ftarget <= 1 /\ calls.gtol <= 1
